@@ -87,6 +87,8 @@ def data_kind_for(writer, kind):
 
 def op_text(scn, i):
     op = scn['ops'][i]
+    if op.get('same_as') is not None and op['same_as'] < i:
+        return op_text(scn, op['same_as'])     # a retry: the very same text again
     return make_text('v%d-%s' % (i, op['name']), op['size'], data_kind_for(scn['writer'], op.get('kind', 'ascii')))
 
 
@@ -186,7 +188,13 @@ def run(scn):
             data_b = text.encode('utf-8')
             if not op.get('dryRun'):
                 started[op['name']].append(data_b)
-            writer, _ = writer_for(scn['writer'], dest)
+            if scn.get('persistent_writer'):
+                # one long-lived writer object for the whole history
+                if 'w' not in state:
+                    state['w'] = writer_for(scn['writer'], dest)[0]
+                writer = state['w']
+            else:
+                writer, _ = writer_for(scn['writer'], dest)
             kwargs = {}
             if op.get('comments'):
                 kwargs['comments'] = list(op['comments'])
@@ -442,6 +450,14 @@ def generate(rng, tier):
     if mode == 'seq':
         nops = rng.choice([1, 2, 2, 3, 4])
         scn['ops'] = [rnd_op() for _ in range(nops)]
+        if rng.random() < 0.4:
+            scn['persistent_writer'] = True
+        for i in range(1, nops):
+            if rng.random() < 0.3:
+                j = rng.randrange(i)
+                scn['ops'][i] = dict(scn['ops'][j])
+                scn['ops'][i]['same_as'] = j
+                scn['ops'][i].pop('dryRun', None)
         for op in scn['ops']:
             r = rng.random()
             if r < 0.12:
@@ -463,6 +479,9 @@ def generate(rng, tier):
                 if a == 'short' and rng.random() < 0.5:
                     arg = rng.choice([0, 1, 2, 3, 7, 64, 4095, 4096, 65535])
                 faults.append({'op': op, 'site': site, 'nth': nth, 'action': a, 'arg': arg})
+                if a == 'errno' and rng.random() < 0.3:
+                    # the same call fails again should the code retry it
+                    faults.append({'op': op, 'site': site, 'nth': nth + 1, 'action': a, 'arg': arg})
             scn['faults'] = faults
         elif style == 'rate':
             scn['rate'] = {'p': rng.choice([0.01, 0.05, 0.2]), 'seed': rng.randrange(1 << 30),
@@ -551,6 +570,15 @@ def shrink(scn):
             if len(scn['ops']) > 1:
                 s = copy.deepcopy(scn)
                 del s['ops'][i]
+                bad = False
+                for o2 in s['ops']:
+                    if o2.get('same_as') is not None:
+                        if o2['same_as'] == i:
+                            bad = True
+                        elif o2['same_as'] > i:
+                            o2['same_as'] -= 1
+                if bad:
+                    continue
                 nf = []
                 for f in s.get('faults', []):
                     if f.get('op') == i:
@@ -575,6 +603,10 @@ def shrink(scn):
             s = copy.deepcopy(scn)
             s['ops'][i]['kind'] = 'ascii'
             yield s
+    if scn.get('persistent_writer'):
+        s = copy.deepcopy(scn)
+        s.pop('persistent_writer')
+        yield s
     if scn.get('prior') and len(scn['prior']) > 1:
         for k in sorted(scn['prior']):
             s = copy.deepcopy(scn)
